@@ -7,7 +7,7 @@ import vlib
 from vlib import Check, ModelError
 
 SPEC = os.path.join(vlib.ROOT, "spec", "Grid")
-INV_P = ["P_InRange", "P_Retrievable", "P_Neighbourhood", "P_Neighbourhood3", "P_ContentOnce", "P_NbhdSound", "P_Reuse"]
+INV_P = ["P_InRange", "P_Retrievable", "P_Neighbourhood", "P_Neighbourhood3", "P_ContentOnce", "P_NbhdSound", "P_Reuse", "P_StructRetrievable"]
 
 
 def phys_variants(reg):
